@@ -241,6 +241,9 @@ def run(ctx, out, tier):
         bp = None
     if bp is not None:
         out.adopt(tr)
+    # a missing API key fails closed only if async-openai's ambient OPENAI_* defaults are overridden (shared with C19)
+    from rules.C19 import check_env
+    check_env(ctx, out, rule="C13.aienv")
     return meta()
 
 
